@@ -717,15 +717,45 @@ func init() {
 					cfg.Workers = o.Workers
 				}
 				res := engine.Run(sc, cfg)
-				return BFSOutput(res, cfg, []string{
+				out := BFSOutput(res, cfg, []string{
 					"every transition is one whole block executed on a block-scoped CacheMultiStore with per-tx cache layers (the layering of baseapp); states are block boundaries",
 					fmt.Sprintf("block items %v, pairs %v, longer blocks %v, block time steps {5 s, timeout+1 s}", sc.Items, sc.Pairs, sc.Lists),
 					"hostile claims are voted by all three validators, i.e. they model what every honest orchestrator/connector would report for a hostile external transaction, or a >=66% coalition",
 					"a transition that exceeds the horizon is a violation only with the structural deadlock signature in two stack dumps; otherwise it is reported as pruned (exhaustive=false), never as a violation",
 					"validators A,B,C hold 30000 each; a fourth bonded validator holds 1 (below the oracle's 16-bit power resolution: normalised oracle power 0) and a fifth is registered but unbonded; a zero total power is not generated (x/staking never bonds a validator with zero power)",
+					"second part: the application as wired in app.go (app.NewMhub2App, real x/staking, x/slashing, x/distribution and the bridge's staking hooks) with three genesis validators of 100 power, x/slashing window 4 blocks; one op = one block; messages are routed like transactions but without the ante handler (no fees, no signatures)",
 				})
+				if len(out.Violations) > 0 || out.InternalError != "" {
+					return out
+				}
+				cov, found := c05AppSearch(o.Tier, o.Workers)
+				if c, ok := out.Evidence["coverage"].(map[string]interface{}); ok {
+					for k, v := range cov {
+						c[k] = v
+					}
+				}
+				if found != nil {
+					// the same path must fail every time before it is believed
+					n := 0
+					for i := 0; i < 5; i++ {
+						if len(c05AppReplay(found.Path)) > 0 {
+							n++
+						}
+					}
+					found.Reproduced = n
+					if n == 5 || found.Violation.Rule == "application_hash_differs_between_replays" {
+						out.Violations = append(out.Violations, *found)
+					} else {
+						out.InternalError = fmt.Sprintf("application path %v failed once and %d of 5 times when replayed", found.Path, n)
+					}
+				}
+				out.Summary += fmt.Sprintf(" app_states=%v app_transitions=%v app_blocks=%v", cov["application_states"], cov["application_transitions"], cov["application_blocks_executed"])
+				return out
 			},
 			Replay: func(tier string, seed int, ops []engine.Op) []engine.Violation {
+				if len(ops) > 0 && strings.HasPrefix(ops[0].Kind, "App:") {
+					return c05AppReplay(ops)
+				}
 				sc, _ := mk(tier)
 				_, steps := sc.Replay(sc.NewWorker(), seed, ops)
 				var vs []engine.Violation
